@@ -13,6 +13,7 @@
 #include <cstdint>
 #include <cstdlib>
 #include <cstring>
+#include <memory>
 #include <string>
 #include <vector>
 
@@ -33,6 +34,22 @@
 extern "C" void qtlogger_verif_point(const char *, const void *) { }
 
 using namespace QtLogger;
+
+#if defined(__SANITIZE_ADDRESS__)
+#  define VERIF_ASAN 1
+#elif defined(__has_feature)
+#  if __has_feature(address_sanitizer)
+#    define VERIF_ASAN 1
+#  endif
+#endif
+#ifdef VERIF_ASAN
+#  include <sanitizer/asan_interface.h>
+#  define VERIF_POISON(p, n) do { if ((n) > 0) __asan_poison_memory_region((p), (n)); } while (0)
+#  define VERIF_UNPOISON(p, n) __asan_unpoison_memory_region((p), (n))
+#else
+#  define VERIF_POISON(p, n) do { (void)(p); (void)(n); } while (0)
+#  define VERIF_UNPOISON(p, n) do { (void)(p); (void)(n); } while (0)
+#endif
 
 namespace {
 
@@ -249,6 +266,44 @@ extern "C" int LLVMFuzzerTestOneInput(const uint8_t *data, size_t size)
             PatternFormatter pf(QStringLiteral("%{shortfile ") + QString::fromUtf8(base.c_str()) + QStringLiteral("}"));
             volatile int n = pf.format(lm).size();
             (void)n;
+        }
+        // Long-lived formatters and a caller that keeps its source-location strings in scratch buffers (a scripting binding): the second
+        // message sits at the same addresses as the first and is shorter.  What lies behind the new terminators is not the library's to
+        // read - it is poisoned for the duration of the call, so that remembering anything about the first message by address shows.
+        {
+            std::string file2 = fdp.ConsumeRandomLengthString(48), func2 = fdp.ConsumeRandomLengthString(48);
+            const size_t fcap = size_t(m.file.size()), ucap = size_t(m.func.size());
+            char *fb = static_cast<char *>(malloc(fcap + 1)), *ub = static_cast<char *>(malloc(ucap + 1));
+            memcpy(fb, m.file.constData(), fcap + 1);
+            memcpy(ub, m.func.constData(), ucap + 1);
+            std::vector<std::unique_ptr<PatternFormatter>> pfs;
+            for (const char *p : pats) pfs.emplace_back(new PatternFormatter(QString::fromLatin1(p)));
+            {
+                QMessageLogContext ctx(fb, 1, ub, "c");
+                LogMessage first(QtWarningMsg, ctx, QStringLiteral("t"));
+                for (auto &pf : pfs) {
+                    volatile int n = pf->format(first).size();
+                    (void)n;
+                }
+            }
+            if (file2.size() > fcap) file2.resize(fcap);
+            if (func2.size() > ucap) func2.resize(ucap);
+            memcpy(fb, file2.c_str(), file2.size() + 1);
+            memcpy(ub, func2.c_str(), func2.size() + 1);
+            VERIF_POISON(fb + file2.size() + 1, fcap - file2.size());
+            VERIF_POISON(ub + func2.size() + 1, ucap - func2.size());
+            {
+                QMessageLogContext ctx(fb, 2, ub, "c");
+                LogMessage second(QtWarningMsg, ctx, QStringLiteral("t"));
+                for (auto &pf : pfs) {
+                    volatile int n = pf->format(second).size();
+                    (void)n;
+                }
+            }
+            VERIF_UNPOISON(fb, fcap + 1);
+            VERIF_UNPOISON(ub, ucap + 1);
+            free(fb);
+            free(ub);
         }
         break;
     }
